@@ -16,6 +16,9 @@ pub struct Fake {
 impl Fake {
     pub fn new() -> Fake {
         let (client, server) = UnixStream::pair().expect("socketpair");
+        // every reply is queued before the client calls, so a client that waits at all is misbehaving:
+        // its read then fails after 2 s instead of hanging the run
+        let _ = client.set_read_timeout(Some(std::time::Duration::from_secs(2)));
         let mut c = varlink::Connection::default();
         let r: Box<dyn Read + Send + Sync> = Box::new(client.try_clone().expect("clone"));
         c.reader = Some(BufReader::new(r));
